@@ -1082,6 +1082,19 @@ func (h *handler) handleProduce(ctx context.Context, header *protocol.RequestHea
 				}
 				continue
 			}
+			// The leases were acquired once for the whole request. Uploading an
+			// earlier partition can take long enough for the etcd session to
+			// expire, so make sure the lease is still held right before writing.
+			if h.leaseManager != nil && !h.leaseManager.Owns(topic.Topic, part.Partition) {
+				p := kmsg.NewProduceResponseTopicPartition()
+				p.Partition = part.Partition
+				p.ErrorCode = protocol.NOT_LEADER_OR_FOLLOWER
+				partitionResponses = append(partitionResponses, p)
+				if h.traceKafka {
+					h.logger.Debug("produce rejected: partition lease lost during request", "topic", topic.Topic, "partition", part.Partition)
+				}
+				continue
+			}
 			result, err := plog.AppendBatch(ctx, batch)
 			if err != nil {
 				p := kmsg.NewProduceResponseTopicPartition()
